@@ -95,9 +95,9 @@ CLAIMS.update({
         note=_COMMON_NOTE + ' Known findings D8 (thresholds below 1e-150) and D10 (output name equal to _id) are recorded.',
         technique=TECH, design_ref='DESIGN.md 0.3, 4 (C15)'),
     'C04': dict(
-        text='SizeFilter (JACCARD, COSINE, DICE) and OverlapFilter: filter_pair is proved never to drop a pair of present values whose '
-             'similarity meets the threshold (SizeFilter: exact window characterisation + the proved safety theorem of the size bounds; '
-             'OverlapFilter: exact). filter_tables of SizeFilter, OverlapFilter, PrefixFilter and PositionFilter (set measures) are proved to '
+        text='SizeFilter, PrefixFilter (JACCARD, COSINE, DICE) and OverlapFilter: filter_pair is proved never to drop a pair of present '
+             'values whose similarity meets the threshold (SizeFilter: exact window characterisation + the proved safety theorem of the '
+             'size bounds; PrefixFilter: exact prefix characterisation + prefix-length theorem + prefix principle; OverlapFilter: exact). filter_tables of SizeFilter, OverlapFilter, PrefixFilter and PositionFilter (set measures) are proved to '
              'list every such pair and every admitted empty pair (ghost origin maps, inductive invariants over the proved index '
              'structures), and filter_candset is proved to keep exactly the rows filter_pair does not drop.',
         note=_COMMON_NOTE + ' PrefixFilter: the step from "prefixes share a rank" (proved exact) to "qualifying pairs are listed" uses the '
@@ -123,8 +123,9 @@ CLAIMS.update({
         note=_COMMON_NOTE + ' The abstract filter_pair is assumed deterministic in (filter object, two values).',
         technique=TECH, design_ref='DESIGN.md 4 (C06)'),
     'C14': dict(
-        text='SizeFilter (set measures): filter_pair and filter_tables are proved to decide exactly by the size window '
-             '[lb(x), ub(x)] of the two token counts (a function of the counts alone); OverlapFilter is proved to keep only pairs '
+        text='SizeFilter: filter_pair (set measures, EDIT_DISTANCE, OVERLAP) and filter_tables (set measures) are proved to decide exactly '
+             'by the size window of the two token counts (a function of the counts alone; for EDIT_DISTANCE: counts differing by at most '
+             'the threshold); PrefixFilter.filter_pair is proved to keep exactly the pairs whose prefixes share a rank (hence a common token); OverlapFilter is proved to keep only pairs '
              'with overlap comp_op overlap_size; PrefixFilter.filter_tables is proved to list exactly the pairs whose two prefixes share a '
              'rank (hence a common token) or that are admitted empty pairs; PositionFilter.filter_tables is proved to list only pairs with '
              'a common token whose left size lies in the size window of the right size (a subset of what SizeFilter keeps), or admitted '
